@@ -684,6 +684,11 @@ func (s *DB) getHistoricRootsAndNodes(
 	if err != nil {
 		return nil, nil, err
 	}
+	// The version trees are read from the bucket, not through the node cache:
+	// the cache holds live node objects that later writes may have modified,
+	// and a link missed here is a node deleted from under a kept version.
+	loadConfig := s.crdt.Config
+	loadConfig.NodeCache = nil
 	candidateRoots := dependentRoots{}
 	parentToChildren := getDependents(rootCacheByName)
 	for parent, children := range parentToChildren {
@@ -704,7 +709,7 @@ func (s *DB) getHistoricRootsAndNodes(
 		if !ok {
 			continue
 		}
-		parent, err := crdt.Load(ctx, s.crdt.Config, &parentName, *parentRoot)
+		parent, err := crdt.Load(ctx, loadConfig, &parentName, *parentRoot)
 		if err != nil {
 			if logFunc != nil {
 				logFunc(fmt.Sprintf("error loading parent %v: %v\n", parentRoot, err))
@@ -712,7 +717,7 @@ func (s *DB) getHistoricRootsAndNodes(
 			continue
 		}
 		for childName, childRoot := range children {
-			child, err := crdt.Load(ctx, s.crdt.Config, &childName, *childRoot)
+			child, err := crdt.Load(ctx, loadConfig, &childName, *childRoot)
 			if err != nil {
 				if logFunc != nil {
 					logFunc(fmt.Sprintf("error loading child %v: %v\n", childName, err))
@@ -753,7 +758,7 @@ func (s *DB) getHistoricRootsAndNodes(
 			continue
 		}
 		name := name
-		kept, err := crdt.Load(ctx, s.crdt.Config, &name, *root)
+		kept, err := crdt.Load(ctx, loadConfig, &name, *root)
 		if err != nil {
 			return nil, nil, err
 		}
@@ -780,7 +785,7 @@ func (s *DB) getHistoricRootsAndNodes(
 			}
 			return nil, nil, fmt.Errorf("load %s: %w", name, err)
 		}
-		kept, err := crdt.Load(ctx, s.crdt.Config, &name, *root)
+		kept, err := crdt.Load(ctx, loadConfig, &name, *root)
 		if err != nil {
 			return nil, nil, err
 		}
